@@ -67,7 +67,8 @@ Definition push (m : pm) (tk : token) (t : ttype) : pm :=
 (* create_invite: a fresh OwnedInvite row (id = inv) registered under the invitation's token *)
 Definition create_invite (m : pm) (inv : N) : pm := push m (TkInvite inv) (TOwned inv).
 
-(* accept_invite: the bytes must deserialize and name this application; an invitation that is already
+(* (in the database the sys.Invite row is written BEFORE the table is looked at: see dstep)
+   accept_invite: the bytes must deserialize and name this application; an invitation that is already
    in the table (accepted before, or created by this instance) is not registered again (fix 1e2cdf6) *)
 Inductive invite_bytes := Garbage | InviteFor (inv : N) (app : N) (signer : option key).
 Definition is_owned (inv : N) (t : ttype) : bool := match t with TOwned i => N.eqb i inv | _ => false end.
@@ -188,7 +189,6 @@ Definition conn_result (nonces : list N) (all : list sconn) (i : nat) (c : sconn
    default room; the grant (a sys.Room mutation) can fail when the invitation is used. *)
 Record sys := { sy_pm : pm;
                 sy_next : N;                                  (* rank of the next created invitation *)
-                sy_bad : list N;                              (* owned invitations whose default-room grant fails *)
                 sy_db_owned : list N;                         (* sys.OwnedInvite rows *)
                 sy_db_invites : list (N * N * option key);    (* sys.Invite rows *)
                 sy_db_allowed : list peer }.                  (* sys.AllowedPeer rows (the instance itself aside) *)
@@ -212,20 +212,19 @@ Inductive dop :=
 | DConsume (tk : token) (p : peer)    (* a connection on tk whose remote proved to be p *)
 | DRestart.
 
-(* invite_accepted on an owned invitation: the row is deleted, then the grant is attempted; when it
-   fails the function returns before the table is updated (the new peer is allowed all the same) *)
+(* invite_accepted on an owned invitation: the row is deleted and the invitation leaves the table;
+   only then is the default room granted (fix 1c5e321: a failing grant no longer keeps the invitation
+   usable) — so the outcome of the grant does not matter for the table *)
 Definition consume_owned (s : sys) (inv : N) (p : peer) : sys :=
   let m := sy_pm s in
-  let m' := if mem_N inv (sy_bad s)
-            then push m (token_of (pm_secret m) (p_pub p)) (TAllowed (p_key p))
-            else match invite_accepted m (TOwned inv) p with Some x => x | None => m end in
-  {| sy_pm := m'; sy_next := sy_next s; sy_bad := sy_bad s;
+  {| sy_pm := match invite_accepted m (TOwned inv) p with Some x => x | None => m end;
+     sy_next := sy_next s;
      sy_db_owned := filter (fun i => negb (N.eqb i inv)) (sy_db_owned s);
      sy_db_invites := sy_db_invites s; sy_db_allowed := add_allowed (sy_db_allowed s) p |}.
 Definition consume_invite (s : sys) (t : ttype) (inv : N) (p : peer) : sys :=
   let m := sy_pm s in
   {| sy_pm := match invite_accepted m t p with Some x => x | None => m end;
-     sy_next := sy_next s; sy_bad := sy_bad s; sy_db_owned := sy_db_owned s;
+     sy_next := sy_next s; sy_db_owned := sy_db_owned s;
      sy_db_invites := filter (fun x => negb (N.eqb (fst (fst x)) inv)) (sy_db_invites s);
      sy_db_allowed := add_allowed (sy_db_allowed s) p |}.
 
@@ -236,12 +235,11 @@ Definition dstep (me_key : key) (s : sys) (o : dop) : sys * N * N :=
   | DCreate g =>
       let inv := sy_next s in
       ({| sy_pm := create_invite m inv; sy_next := N.succ inv;
-          sy_bad := if N.eqb g 2 then inv :: sy_bad s else sy_bad s;
           sy_db_owned := sy_db_owned s ++ [inv]; sy_db_invites := sy_db_invites s; sy_db_allowed := sy_db_allowed s |}, 1, inv)
   | DAccept b =>
       match accept_invite m b, b with
       | Some m', InviteFor inv a sg =>
-          ({| sy_pm := m'; sy_next := sy_next s; sy_bad := sy_bad s; sy_db_owned := sy_db_owned s;
+          ({| sy_pm := m'; sy_next := sy_next s; sy_db_owned := sy_db_owned s;
               sy_db_invites := if existsb (fun x => N.eqb (fst (fst x)) inv) (sy_db_invites s) then sy_db_invites s
                                else sy_db_invites s ++ [(inv, a, sg)];
               sy_db_allowed := sy_db_allowed s |}, 1, 0)
@@ -265,9 +263,9 @@ Definition dstep (me_key : key) (s : sys) (o : dop) : sys * N * N :=
           then (consume_invite s (TInvite i a sg) i p, 3, 1) else (s, 3, 0)
       end
   | DRestart =>
-      ({| sy_pm := rebuild me_key s; sy_next := sy_next s; sy_bad := sy_bad s; sy_db_owned := sy_db_owned s;
+      ({| sy_pm := rebuild me_key s; sy_next := sy_next s; sy_db_owned := sy_db_owned s;
           sy_db_invites := sy_db_invites s; sy_db_allowed := sy_db_allowed s |}, 1, 0)
   end.
 Definition init_sys (app : N) (me : secret) (me_key : key) : sys :=
   {| sy_pm := {| pm_app := app; pm_secret := me; pm_tokens := [(TkOwn, TAllowed me_key)] |};
-     sy_next := 1; sy_bad := []; sy_db_owned := []; sy_db_invites := []; sy_db_allowed := [] |}.
+     sy_next := 1; sy_db_owned := []; sy_db_invites := []; sy_db_allowed := [] |}.
